@@ -139,6 +139,55 @@ def Expr.safe : Expr → Bool
   | .exists _ p => p.existsOK
 end
 
+/-! ### context-sensitive `Safe` (round g)
+
+  `Alg.safe` demands exact annotations whatever bindings are pushed in.  But an inexact annotation only matters for
+  a variable that the context really binds: `forget(before, _except)` keeps every binding whose variable `before` does
+  not bind, and `remember(vars)` of a merged solution is the sub-pattern's own solution on every listed variable the
+  context does not bind.  `Alg.safeIn P ctx` follows the evaluator's data flow: `ctx` is an upper bound of the
+  variables bound in `ctx.bindings` when `evalPart` reaches the node — nothing at the top of a query, the left side's
+  `may` added for the right side of a lazy join and of an OPTIONAL, nothing again below a sub-select and on the right
+  of MINUS (`ctx.clean()`). -/
+
+/-- `forget(μ0, _except = ann)`: the annotation has to be exact only on relevant variables the context may bind -/
+def scopeForget (ctx rel ann must may : List Nat) : Bool :=
+  rel.all fun i =>
+    !(ctx.contains i) || ((!(ann.contains i) || must.contains i) && (!(may.contains i) || ann.contains i))
+
+/-- `remember(ann)`: a variable the sub-pattern may bind must be listed (whatever the context), a listed one must be
+    bound by every solution only if the context may bind it too -/
+def scopeRemember (ctx rel ann must may : List Nat) : Bool :=
+  rel.all fun i =>
+    (!(may.contains i) || ann.contains i) && (!(ctx.contains i) || !(ann.contains i) || must.contains i)
+
+/-- push-down into `P` is exact for every context that binds at most the variables `ctx` -/
+def Alg.safeIn : Alg → List Nat → Bool
+  | .bgp _, _ => true
+  | .join lz a b, ctx => a.safeIn ctx && b.safeIn (if lz then ctx ++ a.may else ctx)
+  | .union a b, ctx => a.safeIn ctx && b.safeIn ctx
+  | .filter e p vars noIso, ctx =>
+    p.safeIn ctx && e.safe && !noIso && scopeForget ctx e.vars vars p.must p.may
+  | .extend p v e vars, ctx =>
+    p.safeIn ctx && e.safe && !(p.may.contains v) && !(e.vars.contains v) &&
+      scopeForget ctx e.vars vars p.must p.may
+  | .values _ _, _ => true
+  | .project p _, _ => p.safeIn []
+  | .graph _ p, ctx => p.safeIn ctx
+  | .minus a b p1vars p2vars, ctx =>
+    a.safeIn ctx && b.safeIn [] &&
+    (match p1vars with
+     | none => false
+     | some vs => scopeRemember ctx b.may vs a.must a.may) &&
+    (match p2vars with
+     | none => true
+     | some vs => b.may.all (vs.contains ·))
+  | .leftJoin a b e p1vars p2vars, ctx =>
+    a.safeIn ctx && b.safeIn (ctx ++ a.may) && e.safe &&
+    scopeForget ctx e.vars (ownVars p1vars p2vars) (a.must ++ b.must) (a.may ++ b.may) &&
+    (match p1vars with
+     | none => false
+     | some vs => scopeRemember ctx (b.may ++ e.vars) vs a.must a.may)
+
 /-- operators covered by the PROVED push-down lemmas: all of them (`inFragment_true`); kept so that the harness and the
     driver report it -/
 def Alg.inFragment : Alg → Bool
@@ -172,5 +221,7 @@ def Query.pattern : Query → Alg
 
 def Query.safe (q : Query) : Bool := q.pattern.safe
 def Query.inFragment (q : Query) : Bool := q.pattern.inFragment
+/-- at the top of a query nothing is pushed in (`initBindings = {}`) -/
+def Query.safeTop (q : Query) : Bool := q.pattern.safeIn []
 
 end RV.C04
